@@ -16,6 +16,21 @@ theorem dec_enc_stream (s : CipherState) (p : Bytes) : s.decrypt (s.encrypt p) =
       CipherState.decryptByte, xor_cancel]
     rw [ih]
 
+/-- the converse direction: encrypting what a state decrypted gives the ciphertext back, so on every length the stream
+cipher is a bijection -/
+theorem enc_dec_stream (s : CipherState) (c : Bytes) : s.encrypt (s.decrypt c) = c := by
+  induction c generalizing s with
+  | nil => rfl
+  | cons b bs ih =>
+    simp only [CipherState.encrypt, CipherState.decrypt, CipherState.encryptByte,
+      CipherState.decryptByte, xor_cancel]
+    rw [ih]
+
+/-- distinct plaintexts never share a ciphertext under one cipher state -/
+theorem encrypt_stream_injective (s : CipherState) (p q : Bytes) (h : s.encrypt p = s.encrypt q) : p = q := by
+  have := congrArg s.decrypt h
+  rwa [dec_enc_stream, dec_enc_stream] at this
+
 theorem encrypt_length (s : CipherState) (p : Bytes) : (s.encrypt p).length = p.length := by
   induction p generalizing s with
   | nil => rfl
